@@ -48,6 +48,10 @@ RULE = ('random formulas (depth <= 4) over + - * / unary minus, integer powers, 
         '(det:magn + random stream; exact criterion "every intermediate value is a double"); access paths found by the '
         'coverage audit: pickle, repr, copy constructor, Expression.make, nested in sympy, sympy numbers as values, '
         'arrays substituted symbolically (det:api, lenbc). '
+        'Round 6: a NAME that is free and the bound index of a Sum in one formula (also two Sums, nested with the same '
+        'index, free in the limit of another Sum), substituted by numbers / variables / terms / swaps / completely '
+        '(det:bound + stream rnd:bound); CHAINS of 2-4 evaluate_symbolic steps on the results (a step may re-introduce a '
+        'name an earlier step removed), every step capture free (det:chain + stream rnd:chain). '
         'Non-trivial = formula with >= 3 nodes; distinct = distinct canonical JSON.')
 TRUSTED = [
     'Coq 8.16.1 kernel + vm_compute (no native_compute)',
@@ -60,7 +64,8 @@ TRUSTED = [
 ASSUMPTIONS = [
     'summation limits and indices are built from int-typed variables only (range()/indexing reject floats by type, the '
     'model has no types)',
-    'a summation limit does not mention the summation index',
+    'a summation limit does not mention the summation index (substituting such a name: known finding '
+    'sum-limit-mentions-index)',
     'where the written formula divides by zero nothing is required (sympy may cancel the division)',
     'a float that meets a TimeType is read by its shortest decimal representation (TimeType.from_float, by design): '
     'exact-mode / TimeType calls with a float argument whose repr() is another number are inexact by nature',
@@ -348,7 +353,53 @@ def gen_cases(rng, tier, ctx):
     rnd = [c for c in cases if not _fragile_case(c)]
     out = _det_cases(tier) + rnd + _session_stream(rng, 30 * mul) + _magn_stream(rng, 30 * mul)
     # drawn last from its own generator: the streams above are the same as before round 6
-    return out + _bound_stream(random.Random(rng.getrandbits(64)), 40 * mul)
+    rng2 = random.Random(rng.getrandbits(64))
+    return out + _bound_stream(rng2, 40 * mul) + _chain_stream(rng2, 50 * mul)
+
+
+def _chain_stream(rng, n):
+    """round 6, random: chains of 2-4 evaluate_symbolic steps on the results (numbers, variables that a later step
+    replaces again, terms, a step that re-introduces a name an earlier step removed, index names free and bound), every
+    step capture free; the value must be the value of the written formula in the scope the steps denote
+    (theorem C12_subst_chain)"""
+    out = []
+    for _ in range(n * 3):
+        if len(out) >= n:
+            break
+        cfg = {'nvars': 4, 'fn': False, 'idx': rng.random() < 0.15, 'sum': True, 'ibc': False}
+        e = X.g_expr(rng, rng.choice([2, 3, 3]), (), cfg)
+        if rng.random() < 0.4:
+            idx = rng.choice(X.INDICES)
+            e = ['b', rng.choice(['add', 'mul', 'sub']), ['b', 'add', e, ['v', idx]] if rng.random() < 0.5 else e,
+                 ['sum', idx, ['c', '0', 'i'], rng.choice([['v', 'n'], ['c', '2', 'i']]), X.g_expr(rng, 2, (idx,), cfg)]]
+        steps, cur = [], e
+        for j in range(rng.randint(2, 4)):
+            vs = sorted(X.fv(cur))
+            if not vs:
+                break
+            st = {}
+            for x in [x for x in vs if rng.random() < 0.5] or [rng.choice(vs)]:
+                ints = x in X.INTS + X.INDICES
+                r = rng.random()
+                if r < 0.4:
+                    st[x] = {'num': X.g_value(rng, 'int' if ints else rng.choice(['int', 'float', 'time']))}
+                elif r < 0.75:   # another variable (maybe one an earlier step removed, maybe one a later step replaces)
+                    st[x] = {'expr': ['v', rng.choice(X.INTS if ints else X.SCALARS)]}
+                elif ints:
+                    st[x] = {'expr': ['b', 'add', ['v', rng.choice(X.INTS)], ['c', '1', 'i']]}
+                else:
+                    st[x] = {'expr': X.g_expr(rng, 1, (), {'nvars': 4, 'sum': False, 'idx': False, 'ite': False, 'ibc': False})}
+            steps.append(st)
+            cur = X.subst(_step_ast(st), cur)
+        if len(steps) < 2:
+            continue
+        prof = rng.choice(['int', 'float', 'time', 'mixed'])
+        scope = X.g_scope(rng, cur, prof)
+        case = {'kind': 'chain', 'expr': e, 'route': 'sym' if rng.random() < 0.2 else 'str', 'steps': steps,
+                'scope': scope, 'path': rng.choice(['in_scope', 'in_scope', 'exact']), 'family': 'rnd:chain'}
+        if _chain_capture_free(case) and not _fragile_case(case):
+            out.append(case)
+    return out
 
 
 def _bound_stream(rng, n):
@@ -491,6 +542,8 @@ def _det_cases(tier):
                     continue
             elif c['kind'] != 'session' and _fragile_case(c):
                 continue
+            if c['kind'] == 'chain' and not _chain_capture_free(c):
+                continue
         out.append(c)
     return out
 
@@ -555,6 +608,8 @@ def _fragile_case(case):
     try:
         if case['kind'] == 'partial':
             se, exact = _partial_view(case)
+        elif case['kind'] == 'chain':
+            se, exact = _partial_view(_chain_last(case))
         elif case['kind'] == 'build':
             se, exact = _build_view(case)
         else:
@@ -928,6 +983,22 @@ def _run_impl(case, objs=None):
             return ex2.evaluate_with_exact_rationals(kw) if case['path'] == 'exact' else ex2.evaluate_in_scope(kw)
         o = _guard(run)
         return {'obs': o, 'impl_expr': rb[0] if rb else None}
+    if k == 'chain':
+        ex, bad = obtain(lambda: _make(case['expr'], case['route']))
+        if bad is not None:
+            return bad if ('hang' in bad or 'crash' in bad) else {'obs': bad}
+        kw = {x: _py_value(tv) for x, tv in case['scope'].items()}
+        rb = []
+
+        def run_chain():
+            ex2 = ex
+            for st in case['steps']:     # evaluate_symbolic on the result of evaluate_symbolic ...
+                ex2 = ex2.evaluate_symbolic({x: (_py_value(t['num']) if 'num' in t else X.to_str(t['expr']))
+                                             for x, t in st.items()})
+            rb.append(_readback(ex2))
+            return ex2.evaluate_with_exact_rationals(kw) if case['path'] == 'exact' else ex2.evaluate_in_scope(kw)
+        o = _guard(run_chain)
+        return {'obs': o, 'impl_expr': rb[0] if rb else None}
     if k == 'build':
         import operator
         ea, bad = _construct(lambda: ExpressionScalar(X.to_str(case['a'])))
@@ -1264,6 +1335,19 @@ def _to_coq(case, obs):
         # the inexact flag is computed on formula and substituted terms together
         return '[CPartial %s [%s] %s]' % (X.to_coq(e), '; '.join(subs),
                                           _g_call_partial(case, full, obs['obs'], obs.get('impl_expr')))
+    if k == 'chain':
+        last = _chain_last(case)
+        full = last['expr']
+        gss = []
+        for st in case['steps']:
+            gs = []
+            for x, t in sorted(st.items()):
+                t = t['expr'] if 'expr' in t else ['c', t['num']['v'], 'r']
+                gs.append('(%d%%N, %s)' % (X.NID[x], X.to_coq(t)))
+                full = ['b', 'add', full, t]
+            gss.append('[%s]' % '; '.join(gs))
+        return '[CChain %s [%s] %s]' % (X.to_coq(case['expr']), '; '.join(gss),
+                                        _g_call_partial(last, full, obs['obs'], obs.get('impl_expr')))
     if k == 'build':
         a, b = case['a'], _b_expr(case)
         if case['op'] in ('neg', 'pos'):
@@ -1313,6 +1397,29 @@ def _to_coq(case, obs):
 
 def _vecpartial_view(case):
     return [X.subst(_subs_ast(case), e) for e in case['exprs']]
+
+
+def _step_ast(st):
+    return {x: (t['expr'] if 'expr' in t else _num_const(t['num'])) for x, t in st.items()}
+
+
+def _chain_last(case):
+    """a chain seen as one partial step: the formula after all steps but the last (the model's substitution applied to
+    the WRITTEN inputs, numbers typed by their Python type) and the last step"""
+    e = case['expr']
+    for st in case['steps'][:-1]:
+        e = X.subst(_step_ast(st), e)
+    return {'kind': 'partial', 'expr': e, 'route': case['route'], 'subs': case['steps'][-1], 'scope': case['scope'],
+            'path': case['path']}
+
+
+def _chain_capture_free(case):
+    e = case['expr']
+    for st in case['steps']:
+        if not X.capture_free(_step_ast(st), e):
+            return False
+        e = X.subst(_step_ast(st), e)
+    return True
 
 
 def _partial_view(case):
@@ -1377,7 +1484,7 @@ def _exprs_of(case):
         return []
     if k == 'session':
         return [e for sub in case['subs'] for e in _exprs_of(sub)]
-    if k in ('eval', 'partial'):
+    if k in ('eval', 'partial', 'chain'):
         return [case['expr']]
     if k == 'build':
         return [case['a']] + ([case['b']['expr']] if 'expr' in case['b'] else [])
@@ -1456,6 +1563,8 @@ def _histogram_keys(case, obs):
             keys.append('cmp:%s' % (obs.get('ret', 'err'),))
         if k == 'partial':
             keys.append('partial:%s' % ('capture' if not X.capture_free(_subs_ast(case), case['expr']) else 'capture-free'))
+        if k == 'chain':
+            keys.append('chain:%d-steps:%s' % (len(case['steps']), 'capture-free' if _chain_capture_free(case) else 'capture'))
         if 'obs' in obs:
             keys.append('obs:' + _okind(obs['obs']))
     return keys
@@ -1817,10 +1926,21 @@ def classify(case, obs):
         return _classify(case, obs)
 
 
+def _limit_mentions_index(case):
+    """names that are substituted, are the index of a Sum of the formula and occur free in that Sum's own limits"""
+    return sorted({t[1] for t in X.subterms(case['expr'])
+                   if t[0] == 'sum' and t[1] in case['subs'] and t[1] in (X.fv(t[2]) | X.fv(t[3]))})
+
+
 def _partial_status(case, obs):
     """'ok' | id of a known finding | None for one partial-substitution step"""
     o = obs['obs']
     se, exact = _partial_view(case)
+    lim = _limit_mentions_index(case)
+    if lim and (o.get('err') == 'other:ValueError' or ('val' in o and any(case['subs'][x].get('expr', [''])[0] == 'v' for x in lim))):
+        # round 6: Sum(f(k), (k, lo, hi(k))) -- the index name also occurs FREE in the Sum's own limit and is substituted:
+        # the substitution reaches the bound occurrences too ('Invalid limits given', or a renamed index)
+        return 'sum-limit-mentions-index'
     if not X.capture_free(_subs_ast(case), case['expr']) and 'hang' not in o and 'crash' not in o:
         # the class: a substituted term mentions the index of a Sum it lands under (guard capture_free of the
         # Coq model is false) AND the observation is what the capturing substitution evaluates to
@@ -1871,6 +1991,11 @@ def _classify(case, obs):
             return sorted(ids)[0] if ids and None not in ids else None
         if k == 'partial':
             r = _partial_status(case, obs)
+            return None if r == 'ok' else r
+        if k == 'chain':       # only capture-free chains are generated: judged as the last step on the formula before it
+            if not _chain_capture_free(case):
+                return None
+            r = _partial_status(_chain_last(case), obs)
             return None if r == 'ok' else r
         if k in ('vec', 'vecpartial'):
             o = obs['obs']
@@ -2064,7 +2189,10 @@ MANIFEST = {
     'level_text': 'Proof (partial by nature).  Proved for all formulas / scopes, about the Coq model of what qupulse does '
                   'against the denotation of Spec.v: simultaneous substitution lemma (under the executable guard '
                   'capture_free = exactly the class of finding subst-capture; refuted without it); substituting numbers '
-                  'first = evaluating at once, every split (no guard); broadcasting evaluation => pointwise value '
+                  'first = evaluating at once, every split (no guard); round 6: CHAINS of any number of substitution steps '
+                  '(evaluate_symbolic on the result of evaluate_symbolic ...) = evaluating the written formula at once in '
+                  'the scope the steps denote (C12_subst_chain, every step under capture_free; number steps unguarded), '
+                  'cases of kind chain are judged by that scope in check_spec; broadcasting evaluation => pointwise value '
                   '(C12_vector, converse not claimed); the Python-typed model of the generated code has the value of the '
                   'denotation in both modes and, under the static guard exact_guard (wider than finding exact-int-div: it '
                   'also excludes every Piecewise and int**negative), an exact type (refuted without it); closed-formula '
@@ -2072,15 +2200,16 @@ MANIFEST = {
                   'TESTED ONLY, not proved: that sympy / lambdify / numpy evaluation equals the denotation (clauses scalar, '
                   'vector, array, exact mode: correspondence on generated formulas x scopes x access paths), the '
                   'serialisation round trip (no printer / parser model), soundness of the comparisons sympy decides beyond '
-                  'closed formulas.  Not covered: "unknown otherwise" for comparisons (sympy decides more than the model), '
-                  'chains of several substitution steps.',
+                  'closed formulas.  Not covered: "unknown otherwise" for comparisons (sympy decides more than the model); '
+                  'chains on ExpressionVector are not generated.',
     'level_note': 'Trusted: Coq kernel, harness printers/generators, the sympy->AST reader that feeds the typed unit '
                   'cases. sympy/numpy/gmpy2 are the implementation under comparison. check_spec is defined in SpecCheck.v, '
                   'which imports the specification Spec.v only (round 5). Transcendental functions only under tolerance '
                   '(never deciding). The result TYPE is compared only where the typed model computes int or TimeType (its '
                   'float class claims nothing). Reserved names and Len/Broadcast are judged by a Python specification '
                   '(py_spec), not in Coq. Known findings numpy-int-overflow, int-div-through-float, float-15-digits, '
-                  'piecewise-eager, dead-part-evaluated, lambda-name-capture are class-wide predicates: a second defect '
+                  'piecewise-eager, dead-part-evaluated, lambda-name-capture, sum-limit-mentions-index (value for a bare '
+                  'variable term) are class-wide predicates: a second defect '
                   'confined to one of these input classes would be filed under the finding.',
     'technique': 'Coq proofs over a Q-denotation of the formula language (+ a typed refinement for the exact-rational '
                  'mode) + exact correspondence check against sympy/numpy',
